@@ -58,6 +58,11 @@ static inline void build_cell_content(Built& B, Cell* cell, const J& c) {
         Polygon* p = (Polygon*)allocate_clear(sizeof(Polygon));
         p->tag = j_tag(e);
         for (size_t k = 0; k < e["pts"].size(); k++) p->point_array.append(Q.u2(e["pts"][k]));
+        if (e.has("ellipse")) {  // a polygonal circle from the library's own generator
+            const J& el = e["ellipse"];
+            *p = ellipse(Q.u2(el["c"]), Q.u(el["r"].i()), Q.u(el["r"].i()), 0, 0, 0, 0,
+                         Q.u(4 * el["tol"].i()) / 100.0, p->tag);
+        }
         set_repetition(p->repetition, e["rep"], Q);
         build_props(p->properties, e["props"]);
         cell->polygon_array.append(p);
